@@ -288,7 +288,9 @@ class MatchMonitor:
             lf = self.cur.get('last_fill_price')
             if order.type == 'MARKET' and not order.reduce_only and lf is not None:
                 c.count('market_orders_created_mid_minute')
-                if float(order.price) != lf:
+                if self.cur.get('last_fill_at_cursor'):
+                    c.count('market_orders_created_at_a_fill_on_the_remainder_open')
+                elif float(order.price) != lf:
                     self.v(c, 'C02', 'market-price', f"C02|market-order-created-at-a-fill-not-priced-at-that-fill|fast={int(self.fast)}",
                            {'id': str(order.id), 'price': float(order.price), 'fill_price': lf})
 
@@ -414,6 +416,10 @@ class MatchMonitor:
                        f'C08|order-reachable-earlier-was-skipped|created-in-call={int(o.id in st["created"])}',
                        {'filled': [str(order.id), p, d], 'skipped': [o.id, o.price, do], 'pts': path.pts, 'cursor': d0})
                 break
+        # a fill exactly where the cursor already stands (the open of the minute, or the price of the previous fill):
+        # by the splitting rule C08 states ("for any price other than the open") the candle published for it is the
+        # whole remainder, so "the current price" of that moment is the remainder's close, not the fill price
+        st['last_fill_at_cursor'] = (d == d0)
         st['d'] = d
         if st['fills'] >= 2:
             c.count('minutes_with_2+_fills')
@@ -434,6 +440,16 @@ class MatchMonitor:
                    {'id': str(order.id), 'price': p, 'range': [lo, hi], 'minute': st['i0'] + m})
             return
         # first minute, from submission onward, whose range contains the price
+        # same corner as in the step simulator: a fill at the open of its minute (raw open or previous close) or at the
+        # price of the previous fill of that minute publishes the whole remainder
+        fc = c.scratch.get('full_candles', {}).get(order.symbol)
+        at_cursor = (st.get('prev_fill') == (m, p))
+        if fc is not None:
+            k = self.w + st['i0'] + m
+            if 0 <= k < len(fc) and (p == float(fc[k][1]) or (k > 0 and p == float(fc[k - 1][2]))):
+                at_cursor = True
+        st['last_fill_at_cursor'] = at_cursor
+        st['prev_fill'] = (m, p)
         created_in_chunk = r is not None and r.id in st['created']
         start = 0
         if created_in_chunk:
